@@ -25,6 +25,17 @@ func OnceFunc(f func()) func()                                 { return sync.Onc
 func OnceValue[T any](f func() T) func() T                     { return sync.OnceValue(f) }
 func OnceValues[T1, T2 any](f func() (T1, T2)) func() (T1, T2) { return sync.OnceValues(f) }
 
+// Sequential is set by single-goroutine harnesses: a lock that cannot be taken immediately will never be released by
+// anybody, so instead of blocking forever the shim panics with Blocked (a state-based verdict "this call hangs").
+var Sequential bool
+
+// Blocked is the panic value of a lock operation that would block forever in a sequential harness.
+type Blocked struct{ Op string }
+
+func (b Blocked) Error() string {
+	return b.Op + " would block forever (the lock is held and nobody else is running)"
+}
+
 // Go runs fn on a new goroutine; a managed thread creates a managed thread.
 func Go(fn func()) { vsched.Go(fn) }
 
@@ -33,14 +44,21 @@ type Mutex struct {
 }
 
 func (m *Mutex) Lock() {
-	vsched.Point(vsched.OpLock, uintptr(unsafe.Pointer(m)), 0)
+	if !vsched.Point(vsched.OpLock, uintptr(unsafe.Pointer(m)), 0) && Sequential {
+		if !m.mu.TryLock() {
+			panic(Blocked{"Mutex.Lock"})
+		}
+		return
+	}
 	m.mu.Lock()
 }
 
 func (m *Mutex) Unlock() {
-	// release first, then tell the scheduler: the shadow state never says "free" while the real lock is held
-	m.mu.Unlock()
+	// announce, then release. Normally the scheduler continues the same thread at once (no choice), so the shadow
+	// state and the real lock change together; for a mutex that somebody has TryLock'ed the announcement is a choice
+	// point taken while the lock is still held, so that another thread's TryLock can observe it as held.
 	vsched.Point(vsched.OpUnlock, uintptr(unsafe.Pointer(m)), 0)
+	m.mu.Unlock()
 }
 
 func (m *Mutex) TryLock() bool {
@@ -61,6 +79,11 @@ func (m *RWMutex) Lock() {
 	p := uintptr(unsafe.Pointer(m))
 	if vsched.Point(vsched.OpWLockReq, p, 0) {
 		vsched.Point(vsched.OpLock, p, 0)
+	} else if Sequential {
+		if !m.mu.TryLock() {
+			panic(Blocked{"RWMutex.Lock"})
+		}
+		return
 	}
 	m.mu.Lock()
 }
@@ -71,7 +94,12 @@ func (m *RWMutex) Unlock() {
 }
 
 func (m *RWMutex) RLock() {
-	vsched.Point(vsched.OpRLock, uintptr(unsafe.Pointer(m)), 0)
+	if !vsched.Point(vsched.OpRLock, uintptr(unsafe.Pointer(m)), 0) && Sequential {
+		if !m.mu.TryRLock() {
+			panic(Blocked{"RWMutex.RLock"})
+		}
+		return
+	}
 	m.mu.RLock()
 }
 
